@@ -324,9 +324,10 @@ func c09Bus(p []string) string {
 
 func c09Run(c string) string {
 	c09Cases++
-	if c09Cases%150 == 0 { // keep the accumulated tree small
-		c09Stop()
+	if c09Cases%150 == 0 { // keep the accumulated tree small; the old instance shuts down in the background
+		old, oldMon := c09Srv, c09Mon
 		c09Start()
+		go func() { oldMon.Close(); old.stop() }()
 	}
 	f := strings.Fields(c)[0]
 	p := strings.Split(f, "/")
